@@ -39,6 +39,14 @@ func delSel(r *Rng, p GenParams, s Selector, zero, compact bool) Op {
 	return Op{Kind: OpDelete, Sel: s, ZeroSet: true, Zero: zero, CompactSet: true, Compact: compact, T: genTOpt(r, p)}
 }
 
+// defaultUnless: the default time option, unless the family must not depend on the clock.
+func defaultUnless(r *Rng, p GenParams) TOpt {
+	if p.NoDefaultTime || p.DetMode {
+		return genTOpt(r, p)
+	}
+	return TOpt{Kind: TDefault}
+}
+
 func add(r *Rng, p GenParams, d DInput) Op { return Op{Kind: OpAdd, DI: d, T: genTOpt(r, p)} }
 
 // scenario returns the creation objects and the operations of directed history k, and whether
@@ -57,7 +65,7 @@ func scenario(k int, r *Rng, p GenParams) (dis []DInput, ops []Op, det bool) {
 			{Kind: OpSetPrim, ID: 4, T: genTOpt(r, p)}, // not a partition
 			{Kind: OpSetPrim, ID: 9, T: genTOpt(r, p)}, // absent
 			add(r, p, part(r, 2, small(), 0)),          // a second primary partition: refused
-			{Kind: OpSetPrim, ID: 5, T: genTOpt(r, p)}, // moves the primary
+			{Kind: OpSetPrim, ID: 5, T: defaultUnless(r, p)}, // moves the primary, at the default time
 			{Kind: OpSetPrim, ID: 2, T: genTOpt(r, p)},
 			{Kind: OpReload},
 			delID(r, p, 5, r.Chance(1, 2), r.Chance(1, 2)), // the primary goes: architecture unknown
